@@ -58,7 +58,17 @@ def abs1(ctx, pid):
     rows = {}
     n_reads = {}
     gn = H(ctx, "get_node")
-    for p, st in pq.states(ctx, g, unroll=1):
+    # `while remaining_key:` leaves the loop after the hop (one round is enough to see every row); a `while True:`
+    # machine with the arrival test at the top needs the start of a second round to show where a hop ends: those
+    # paths count when the second round does nothing but arrive, the others are rows of the next hop
+    endless_loop = any(isinstance(n_, ast.While) and isinstance(n_.test, ast.Constant) and n_.test.value is True for n_ in ast.walk(g.node))
+    for p, st in pq.states(ctx, g, unroll=2 if endless_loop else 1):
+        if endless_loop:
+            rounds = sum(1 for ev in st.events if ev.k == "loop" and isinstance(ev.node, ast.While))
+            if rounds >= 2:
+                r_ = st.ret if p.exit[0] == "return" else None
+                if not (r_ is not None and r_[0] == "tuple" and len(r_[1]) == 2 and r_[1][1] == ("call", NIBBLES, (C(()),), ()) and r_[1][0] != node):
+                    continue
         lo, hi = eng.len_of(key, st.facts)
         if hi == 0:
             case = "key-empty"
@@ -90,10 +100,24 @@ def abs1(ctx, pid):
                     nxt = r[1][0]
                     # the node read in the hop
                     ptr = nxt[2][1] if nxt[0] == "call" and nxt[1] == HEX + ".get_node" else None
+                    # what is left of the key after the hop: the term whose emptiness ends the walk on this path
+                    resid = None
+                    for t_, pol_, _n in reversed(st.log):
+                        tt_, pp_ = truth_norm(t_, pol_)
+                        if tt_[0] == "len":
+                            tt_ = tt_[1]
+                        if pp_ is False and tt_[0] in ("slice", "sub"):
+                            resid = tt_
+                            break
+                        rn_ = rel_norm(t_, pol_)
+                        if rn_ is not None and rn_[0] == "==" and rn_[2] == C(0) and rn_[1][0] == "len":
+                            resid = rn_[1][1]
+                            break
                     if ptr == ("sub", node, ("sub", key, C(0))):
-                        out = "hop(node[key[0]], key[1:])"
+                        out = "hop(node[key[0]], key[1:])" if resid == ("slice", key, C(1), None) else "hop(node[key[0]], residual %s)" % (tstr(resid)[:30] if resid else "?")
                     elif ptr is not None and ptr[0] == "sub" and ptr[1][0] == "call" and ptr[1][1] == HEX + "._traverse_extension":
-                        out = "hop(extension child, remainder)"
+                        out = "hop(extension child, remainder)" if resid == ("sub", ptr[1], C(1)) and ptr[2] == C(0) else \
+                            "hop(extension child, residual %s)" % (tstr(resid)[:40] if resid else "?")
                     else:
                         out = "hop(%s)" % tstr(ptr)[:40]
             else:
